@@ -104,6 +104,58 @@ def judge_subclass_key():
     return n, None
 
 
+def judge_stateful_actuate(s):
+    """the stateful interface (env.step) must change doors / boxes exactly like the functional one"""
+    from .c01 import make_env
+
+    env, _ = make_env(R.shape(s[0]), dyn.CHAIN_FULL)
+    env._rng = dyn.ChoiceRng([])
+    env._state = mkstate(s)
+    env._observation = None
+    try:
+        env.step(dyn.ACT['ACTUATE'])
+    except Exception as e:  # noqa: BLE001
+        return f'env.step(ACTUATE) raised {type(e).__name__}: {e}'
+    from ..desc import sdesc
+    got = sdesc(env.state)
+    want = R.ref_actuate_box(R.ref_actuate_door(s, 'ACTUATE'), 'ACTUATE')
+    if got[0] != want[0]:
+        p = R.front(s[1], s[2], s[3])
+        return (f'through env.step(ACTUATE) the faced cell {p} holds {got[0][p[0]][p[1]]} afterwards, reference {want[0][p[0]][p[1]]} '
+                f'(functional_step is judged elsewhere)')
+    return None
+
+
+def judge_repose(s):
+    """an agent re-posed through its public `transform` attribute (after it already acted once) actuates what it faces NOW"""
+    from gym_gridverse.envs.transition_functions import transition_function_registry as TF
+    from gym_gridverse.geometry import Position, Transform
+    from ..desc import ORI, sdesc
+
+    fn = dyn.chain_fn(('actuate_door', 'actuate_box'))
+    H, W = R.shape(s[0])
+    for y2, x2, h2 in ((yy, xx, hh) for yy in range(H) for xx in range(W) for hh in 'FRBL'):
+        for how in ('attribute', 'replace'):
+            st = mkstate(s)
+            fn(st, dyn.ACT['ACTUATE'])
+            TF['pickndrop'](st, dyn.ACT['TURN_LEFT'])
+            base = sdesc(st)
+            if how == 'attribute':
+                st.agent.transform.position = Position(y2, x2)
+                st.agent.transform.orientation = ORI[h2]
+            else:
+                st.agent.transform = Transform(Position(y2, x2), ORI[h2])
+            s2 = (base[0], y2, x2, h2, base[4])
+            if sdesc(st) != s2:
+                continue
+            fn(st, dyn.ACT['ACTUATE'])
+            want = R.ref_actuate_box(R.ref_actuate_door(s2, 'ACTUATE'), 'ACTUATE')
+            if sdesc(st)[0] != want[0]:
+                return (f'after acting once at {(s[1], s[2], s[3])} and being re-posed to {(y2, x2, h2)} through agent.transform ({how}), '
+                        f'ACTUATE changed the grid differently from the reference for the new pose')
+    return None
+
+
 def make_hooks(env, name):
     def door_of(rows):
         for y, r in enumerate(rows):
@@ -151,6 +203,10 @@ def replay(case):
         return judge(tuple(case['names']), tup(case['s']), case['a'])[2]
     if case['kind'] == 'reach':
         return reach.replay_trace(case, make_hooks)
+    if case['kind'] == 'stateful_actuate':
+        return judge_stateful_actuate(tup(case['s']))
+    if case['kind'] == 'repose':
+        return judge_repose(tup(case['s']))
     if case['kind'] == 'subkey':
         return judge_subclass_key()[1]
     raise ValueError(case['kind'])
@@ -169,6 +225,20 @@ def run(rep, tier, seed):
     else:
         names, init_limit, max_states, gcap = ['keydoor.5x5', 'keydoor.7x7', 'keydoor.9x9'], 8000, 600000, None
     rs, rt = dyn.run_reach(rep, names, init_limit, max_states, make_hooks, replay, 'door_protocol', group_cap=gcap, lineages=2 if tier == 'quick' else 3)
+    sb = 0
+    nested = [U.box(U.box(U.key(U.C1))), U.box(U.key(U.C1)), U.box(U.box(U.box(U.FLOOR))), U.door(1, U.C1), U.door(2, U.C1)]
+    for obj in nested:
+        for held in (U.NONE, U.key(U.C1)):
+            s0 = (((U.FLOOR, obj), (U.FLOOR, U.FLOOR)), 0, 0, 'R', held)
+            sb += 1
+            m = judge_stateful_actuate(s0)
+            if m:
+                rep.violation({'kind': 'stateful_actuate', 's': s0, 'sig': {'part': 'stateful'}}, m)
+            if held == U.NONE:
+                m = judge_repose(s0)
+                if m:
+                    rep.violation({'kind': 'repose', 's': s0, 'sig': {'part': 'repose'}}, m)
+    rep.part('stateful_and_reposed', cases=sb)
     kn, km = judge_subclass_key()
     if km:
         rep.violation({'kind': 'subkey', 'sig': {'part': 'key_subclass'}}, km)
